@@ -395,6 +395,24 @@ def run(repo, res):
     if n_empty < 3:
         raise AnalysisError("R09.5: fewer np.empty sites than expected")
 
+    # R09.9 ---------------------------------------------------------------------------
+    res.rule("R09.9", "NodeTimeValues never updates its whole arrays in place (no `out=` ufunc target, no augmented assignment on grid_data / fixed_data): clone_with_new_data shares the arrays it is given, so an in-place conversion would change another object's -- e.g. the caller's prior -- data behind its recorded probability space")
+    n_w = 0
+    for q_, f_ in repo.mods["node_time_class"].funcs.items():
+        for n_ in own_nodes(f_):
+            tgt_ = None
+            if isinstance(n_, ast.AugAssign) and U(n_.target).split("[")[0] in ("self.grid_data", "self.fixed_data") and not isinstance(n_.target, ast.Subscript):
+                tgt_ = U(n_)
+            if isinstance(n_, ast.Call):
+                for k_ in n_.keywords:
+                    if k_.arg == "out" and ("grid_data" in U(k_.value) or "fixed_data" in U(k_.value)):
+                        tgt_ = U(n_)
+            if isinstance(n_, ast.Assign) and U(n_.targets[0]) in ("self.grid_data", "self.fixed_data"):
+                n_w += 1
+            if tgt_:
+                res.bad("R09.9", f"node_time_class.{q_} whole-array update `{tgt_[:60]}`", "updates the array in place: an object sharing it (clone_with_new_data passes arrays through) now holds converted data while still recording the old probability space; rebind a new array instead", repo.loc(f_, n_))
+    res.floor("node_time_values_rebinding_stores", n_w, 6)
+    res.ok("R09.9", "node_time_class whole-array updates rebind", f"{n_w} rebinding stores, no in-place update", "")
     # R09.8 ---------------------------------------------------------------------------
     from .common import borrow
 
@@ -434,6 +452,7 @@ def run(repo, res):
 
 
 VARIANTS = [
+    dict(name="conversion-in-place", mod="node_time_class", expect="fire", rule="R09.9", old="                self.grid_data = np.exp(self.grid_data)\n", new="                np.exp(self.grid_data, out=self.grid_data)\n"),
     dict(name="cache-rounded-on-write", mod="prior", expect="fire", rule="R09.8", old="                np.savetxt(f, prior_lookup_table)\n", new="                np.savetxt(f, prior_lookup_table, fmt=\"%.9g\")\n"),
     dict(name="prior-conversion-only-towards-log", mod="discrete", expect="fire", rule="R09.7", old="        self.priors.force_probability_space(lik.probability_space)\n", new="        if lik.probability_space == LOG_GRID:\n            self.priors.force_probability_space(lik.probability_space)\n"),
     dict(name="random-tiebreak", mod="discrete", expect="fire", rule="R09.1", old="            maximized_node_times[child] = np.argmax(", new="            _ = np.random.random()\n            maximized_node_times[child] = np.argmax("),
